@@ -88,7 +88,14 @@ def load_ledger():
     # known_findings.json is the ledger; findings/*.json are per-property parts of the same committed ledger
     for p in [os.path.join(VERIF, 'known_findings.json')] + sorted(glob.glob(os.path.join(VERIF, 'findings', '*.json'))):
         if os.path.exists(p):
-            d = json.load(open(p))
+            for attempt in range(3):
+                try:
+                    d = json.load(open(p))
+                    break
+                except ValueError:
+                    time.sleep(0.2)
+            else:
+                raise
             led['known'] += d.get('known', [])
             led['fixed'] += d.get('fixed', [])
     return led
@@ -123,7 +130,15 @@ def merge(results):
                     w['shard'] = [r.get('shard', 0), r.get('nshards', 1)]
                     t['witnesses'].append(w)
         for k, v in r.get('notes', {}).items():
-            m['notes'].setdefault(k, v)
+            if k not in m['notes']:
+                m['notes'][k] = v
+            elif m['notes'][k] != v:
+                prev = m['notes'][k]
+                if not (isinstance(prev, dict) and prev.get('_per_shard')):
+                    prev = {'_per_shard': True, 'values': [prev]}
+                if len(prev['values']) < 16:
+                    prev['values'].append(v)
+                m['notes'][k] = prev
         for f, lines in r.get('reach', {}).items():
             m['reach'].setdefault(f, set()).update(lines)
         exh.append(r.get('exhaustive'))
@@ -187,6 +202,8 @@ def main(argv=None):
     def launch(i):
         out = os.path.join(tmp, f'{i}.json')
         cmd = [PY, '-m', 'vp.main', pid, tier, '--seed', str(seed), '--worker', str(i), str(nshards), out]
+        if a.replay:
+            cmd += ['--replay', os.path.abspath(a.replay)]
         try:
             p = subprocess.run(cmd, env=env, cwd=VERIF, timeout=timeout, capture_output=True, text=True)
         except subprocess.TimeoutExpired:
@@ -209,7 +226,7 @@ def main(argv=None):
     problems += [f'harness error: {h.strip().splitlines()[-1]}' for h in m['harness_errors']]
     for h in m['harness_errors'][:2]:
         sys.stderr.write(h + '\n')
-    for name in m['required']:
+    for name in (m['required'] if replay_rec is None else []):
         if m['monitors'].get(name, 0) == 0:
             problems.append(f'deciding monitor {name!r} was never evaluated')
     if not results:
@@ -225,9 +242,10 @@ def main(argv=None):
     for k, e in known.items():
         n = seen_known.get(k, {}).get('count', 0)
         lines.append(f"KNOWN-FINDING: property={pid} {e['what']} [key={k}; observed {n}x this run]")
-    os.makedirs(os.path.join(VERIF, 'replays', pid), exist_ok=True)
+    rdir = os.path.join(VERIF, 'replays', pid) if not a.no_evidence else os.path.join(tempfile.gettempdir(), 'vp-replays', pid)
+    os.makedirs(rdir, exist_ok=True)
     for k, v in new.items():
-        path = os.path.join(VERIF, 'replays', pid, safe(k) + '.json')
+        path = os.path.join(rdir, safe(k) + '.json')
         json.dump({'property': pid, 'key': k, 'what': v['what'], 'count': v['count'], 'tier': tier, 'seed': seed,
                    'witnesses': v['witnesses'],
                    'replay': f'./check {pid} --replay replays/{pid}/{safe(k)}.json'}, open(path, 'w'), indent=1)
@@ -264,6 +282,12 @@ def main(argv=None):
         os.makedirs(os.path.join(VERIF, 'evidence'), exist_ok=True)
         json.dump(ev, open(os.path.join(VERIF, 'evidence', f'{pid}.json'), 'w'), indent=1)
 
+    if replay_rec is not None:
+        k = replay_rec.get('key')
+        hit = m['violations'].get(k)
+        print(f'[{pid} replay] key {k!r} ' + (f'REPRODUCED {hit["count"]}x' if hit else 'not reproduced'))
+        if hit and k in known:
+            print(f'KNOWN-FINDING: property={pid} {known[k]["what"]}')
     print(f'[{pid} {tier} seed={seed}] verdict={verdict} evaluations={m["evaluations"]} distinct={len(m["distinct"])} '
           f'monitors={sum(m["monitors"].values())} known_observed={len(seen_known)} new={len(new)} wall={time.time() - t0:.1f}s')
     for l in lines:
